@@ -180,7 +180,7 @@ let run (prop : string) (input : S.t) (observed : S.t) : S.t * string =
              (if not (Model.conforms ty w) then "fails:delivered-value-does-not-conform-to-the-declared-type"
               else if not (Model.denotes value w) then "fails:delivered-value-does-not-denote-what-the-client-wrote"
               else "holds")
-           else (if not (Model.has_shape ty w) then "fails:leaf-does-not-have-the-shape-of-its-declared-type"
+           else (if not (Model.has_shape ty w) then (match ty with TEnum _ -> "fails:enum-leaf-is-not-a-declared-value" | _ -> "fails:leaf-does-not-have-the-shape-of-its-declared-type")
                  else if not (Model.out_faithful value w) then "fails:leaf-is-not-the-value-the-resolver-returned"
                  else "holds")
          | _ -> "fails:malformed-observation"
